@@ -31,15 +31,13 @@ package orb
 
 //@ func (Bound).Extend(b, point)
 //@   pure
-//@   requires nonanB(b) && nonanP(point)
-//@   ensures isExtend(result, b, point)
-//@   ensures nonanB(result)
+//@   ensures (nonanB(b) && nonanP(point)) ==> (isExtend(result, b, point))
+//@   ensures (nonanB(b) && nonanP(point)) ==> (nonanB(result))
 
 //@ func (Bound).Union(b, other)
 //@   pure
-//@   requires nonanB(b) && nonanB(other)
-//@   ensures isUnion(result, b, other)
-//@   ensures nonanB(result)
+//@   ensures (nonanB(b) && nonanB(other)) ==> (isUnion(result, b, other))
+//@   ensures (nonanB(b) && nonanB(other)) ==> (nonanB(result))
 
 //@ func (Bound).Intersects(b, bound)
 //@   pure
@@ -54,35 +52,31 @@ package orb
 
 //@ func (MultiPoint).Bound(mp)
 //@   pure
-//@   requires allNonan(mp)
-//@   ensures tightBound(result, mp)
-//@   ensures nonanB(result)
-//@   loop 1: invariant -1 <= rangeindex && rangeindex < len(mp) && nonanB(b)
-//@   loop 1: invariant forall k :: 0 <= k && k <= rangeindex ==> contains(b, mp[k])
-//@   loop 1: invariant contains(b, mp[0])
-//@   loop 1: invariant exists k :: 0 <= k && (k <= rangeindex || k == 0) && b.Min[0] == mp[k][0]
-//@   loop 1: invariant exists k :: 0 <= k && (k <= rangeindex || k == 0) && b.Min[1] == mp[k][1]
-//@   loop 1: invariant exists k :: 0 <= k && (k <= rangeindex || k == 0) && b.Max[0] == mp[k][0]
-//@   loop 1: invariant exists k :: 0 <= k && (k <= rangeindex || k == 0) && b.Max[1] == mp[k][1]
+//@   ensures (allNonan(mp)) ==> (tightBound(result, mp))
+//@   ensures (allNonan(mp)) ==> (nonanB(result))
+//@   loop 1: invariant (allNonan(mp)) ==> (-1 <= rangeindex && rangeindex < len(mp) && nonanB(b))
+//@   loop 1: invariant (allNonan(mp)) ==> (forall k :: 0 <= k && k <= rangeindex ==> contains(b, mp[k]))
+//@   loop 1: invariant (allNonan(mp)) ==> (contains(b, mp[0]))
+//@   loop 1: invariant (allNonan(mp)) ==> (exists k :: 0 <= k && (k <= rangeindex || k == 0) && b.Min[0] == mp[k][0])
+//@   loop 1: invariant (allNonan(mp)) ==> (exists k :: 0 <= k && (k <= rangeindex || k == 0) && b.Min[1] == mp[k][1])
+//@   loop 1: invariant (allNonan(mp)) ==> (exists k :: 0 <= k && (k <= rangeindex || k == 0) && b.Max[0] == mp[k][0])
+//@   loop 1: invariant (allNonan(mp)) ==> (exists k :: 0 <= k && (k <= rangeindex || k == 0) && b.Max[1] == mp[k][1])
 
 //@ func (LineString).Bound(ls)
 //@   pure
-//@   requires allNonan(ls)
-//@   ensures tightBound(result, ls)
-//@   ensures nonanB(result)
+//@   ensures (allNonan(ls)) ==> (tightBound(result, ls))
+//@   ensures (allNonan(ls)) ==> (nonanB(result))
 
 //@ func (Ring).Bound(r)
 //@   pure
-//@   requires allNonan(r)
-//@   ensures tightBound(result, r)
-//@   ensures nonanB(result)
+//@   ensures (allNonan(r)) ==> (tightBound(result, r))
+//@   ensures (allNonan(r)) ==> (nonanB(result))
 
 //@ func (Polygon).Bound(p)
 //@   pure
-//@   requires len(p) > 0 ==> allNonan(p[0])
-//@   ensures nonanB(result)
-//@   ensures len(p) == 0 ==> same(result, emptyBound)
-//@   ensures len(p) > 0 ==> tightBound(result, p[0])
+//@   ensures (len(p) > 0 ==> allNonan(p[0])) ==> (nonanB(result))
+//@   ensures (len(p) > 0 ==> allNonan(p[0])) ==> (len(p) == 0 ==> same(result, emptyBound))
+//@   ensures (len(p) > 0 ==> allNonan(p[0])) ==> (len(p) > 0 ==> tightBound(result, p[0]))
 
 // Two-level kinds: the bound contains every vertex of every member, each side is attained by some
 // vertex, and it is empty exactly when there is no vertex at all.
@@ -93,16 +87,15 @@ package orb
 
 //@ func (MultiLineString).Bound(mls)
 //@   pure
-//@   requires allNonan2(mls)
-//@   ensures nonanB(result)
-//@   ensures noVerts2(mls, len(mls)) ==> isempty(result)
-//@   ensures allIn2(result, mls, len(mls))
-//@   ensures !noVerts2(mls, len(mls)) ==> attained2(result, mls, len(mls))
-//@   loop 1: invariant 1 <= i && i <= len(mls) && nonanB(bound)
-//@   loop 1: invariant noVerts2(mls, i) ==> isempty(bound)
-//@   loop 1: invariant allIn2(bound, mls, i)
-//@   loop 1: invariant !noVerts2(mls, i) ==> attained2(bound, mls, i)
-//@   loop 1: invariant !noVerts2(mls, i) ==> !isempty(bound)
+//@   ensures (allNonan2(mls)) ==> (nonanB(result))
+//@   ensures (allNonan2(mls)) ==> (noVerts2(mls, len(mls)) ==> isempty(result))
+//@   ensures (allNonan2(mls)) ==> (allIn2(result, mls, len(mls)))
+//@   ensures (allNonan2(mls)) ==> (!noVerts2(mls, len(mls)) ==> attained2(result, mls, len(mls)))
+//@   loop 1: invariant (allNonan2(mls)) ==> (1 <= i && i <= len(mls) && nonanB(bound))
+//@   loop 1: invariant (allNonan2(mls)) ==> (noVerts2(mls, i) ==> isempty(bound))
+//@   loop 1: invariant (allNonan2(mls)) ==> (allIn2(bound, mls, i))
+//@   loop 1: invariant (allNonan2(mls)) ==> (!noVerts2(mls, i) ==> attained2(bound, mls, i))
+//@   loop 1: invariant (allNonan2(mls)) ==> (!noVerts2(mls, i) ==> !isempty(bound))
 
 // Multi-polygons: only outer rings count; polygons without rings contribute nothing.
 //@ spec allNonan3(m MultiPolygon) bool = forall i :: 0 <= i && i < len(m) && len(m[i]) > 0 ==> allNonan(m[i][0])
@@ -112,16 +105,15 @@ package orb
 
 //@ func (MultiPolygon).Bound(mp)
 //@   pure
-//@   requires allNonan3(mp)
-//@   ensures nonanB(result)
-//@   ensures noVerts3(mp, len(mp)) ==> isempty(result)
-//@   ensures allIn3(result, mp, len(mp))
-//@   ensures !noVerts3(mp, len(mp)) ==> attained3(result, mp, len(mp))
-//@   loop 1: invariant 1 <= i && i <= len(mp) && nonanB(bound)
-//@   loop 1: invariant noVerts3(mp, i) ==> isempty(bound)
-//@   loop 1: invariant allIn3(bound, mp, i)
-//@   loop 1: invariant !noVerts3(mp, i) ==> attained3(bound, mp, i)
-//@   loop 1: invariant !noVerts3(mp, i) ==> !isempty(bound)
+//@   ensures (allNonan3(mp)) ==> (nonanB(result))
+//@   ensures (allNonan3(mp)) ==> (noVerts3(mp, len(mp)) ==> isempty(result))
+//@   ensures (allNonan3(mp)) ==> (allIn3(result, mp, len(mp)))
+//@   ensures (allNonan3(mp)) ==> (!noVerts3(mp, len(mp)) ==> attained3(result, mp, len(mp)))
+//@   loop 1: invariant (allNonan3(mp)) ==> (1 <= i && i <= len(mp) && nonanB(bound))
+//@   loop 1: invariant (allNonan3(mp)) ==> (noVerts3(mp, i) ==> isempty(bound))
+//@   loop 1: invariant (allNonan3(mp)) ==> (allIn3(bound, mp, i))
+//@   loop 1: invariant (allNonan3(mp)) ==> (!noVerts3(mp, i) ==> attained3(bound, mp, i))
+//@   loop 1: invariant (allNonan3(mp)) ==> (!noVerts3(mp, i) ==> !isempty(bound))
 
 // geomNonan(g): no vertex that Bound() looks at is NaN (outer rings only for polygons), recursively.
 //@ spec geomNonan(g Geometry) bool = (istype(g, Point) ==> nonanP(as(g, Point))) && (istype(g, Bound) ==> nonanB(as(g, Bound))) && (istype(g, MultiPoint) ==> allNonan(as(g, MultiPoint))) && (istype(g, LineString) ==> allNonan(as(g, LineString))) && (istype(g, Ring) ==> allNonan(as(g, Ring))) && (istype(g, Polygon) ==> (len(as(g, Polygon)) > 0 ==> allNonan(as(g, Polygon)[0]))) && (istype(g, MultiLineString) ==> allNonan2(as(g, MultiLineString))) && (istype(g, MultiPolygon) ==> allNonan3(as(g, MultiPolygon))) && (istype(g, Collection) ==> (forall i :: 0 <= i && i < len(as(g, Collection)) ==> geomNonan(as(g, Collection)[i])))
@@ -130,27 +122,23 @@ package orb
 // contract of every in-repo implementer (obligations iface:orb.(Geometry).Bound/<kind>#...).
 //@ func (Geometry).Bound(g)
 //@   pure
-//@   requires geomNonan(g)
-//@   ensures nonanB(result)
+//@   ensures (geomNonan(g)) ==> (nonanB(result))
 
 //@ func (Point).Bound(p)
 //@   pure
-//@   requires nonanP(p)
-//@   ensures nonanB(result) && same(result.Min, p) && same(result.Max, p)
+//@   ensures (nonanP(p)) ==> (nonanB(result) && same(result.Min, p) && same(result.Max, p))
 
 //@ func (Bound).Bound(b)
 //@   pure
-//@   requires nonanB(b)
-//@   ensures same(result, b)
+//@   ensures (nonanB(b)) ==> (same(result, b))
 
 //@ func (Collection).Bound(c)
 //@   pure
-//@   requires forall i :: 0 <= i && i < len(c) ==> geomNonan(c[i])
-//@   ensures nonanB(result)
-//@   ensures len(c) == 0 ==> same(result, emptyBound)
-//@   ensures (forall i :: 0 <= i && i < len(c) ==> c[i] == nil) ==> same(result, emptyBound)
-//@   loop 1: invariant -1 <= rangeindex && rangeindex < len(c) && start == -1 && (forall k :: 0 <= k && k <= rangeindex ==> c[k] == nil)
-//@   loop 2: invariant nonanB(b) && start >= 0 && start < i
+//@   ensures (forall i :: 0 <= i && i < len(c) ==> geomNonan(c[i])) ==> (nonanB(result))
+//@   ensures (forall i :: 0 <= i && i < len(c) ==> geomNonan(c[i])) ==> (len(c) == 0 ==> same(result, emptyBound))
+//@   ensures (forall i :: 0 <= i && i < len(c) ==> geomNonan(c[i])) ==> ((forall i :: 0 <= i && i < len(c) ==> c[i] == nil) ==> same(result, emptyBound))
+//@   loop 1: invariant (forall i :: 0 <= i && i < len(c) ==> geomNonan(c[i])) ==> (-1 <= rangeindex && rangeindex < len(c) && start == -1 && (forall k :: 0 <= k && k <= rangeindex ==> c[k] == nil))
+//@   loop 2: invariant (forall i :: 0 <= i && i < len(c) ==> geomNonan(c[i])) ==> (nonanB(b) && start >= 0 && start < i)
 
 // ---------------------------------------------------------------- Clone (deep, fresh at every level)
 //
